@@ -84,6 +84,10 @@ var injectedErrors = []error{
 	io.ErrShortWrite,
 	context.Canceled,
 	fmt.Errorf("wrapped: %w", os.ErrClosed),
+	// transient conditions (a non-blocking pipe that is full, an interrupted call, a deadline): still a failed attempt
+	&fs.PathError{Op: "write", Path: "/dev/stdout", Err: syscall.EAGAIN},
+	syscall.EINTR,
+	os.ErrDeadlineExceeded,
 }
 
 func (s *sinkT) write(w int, p []byte) (int, error) {
